@@ -174,6 +174,7 @@ func (s *Server) Exit(ctx context.Context) error {
 
 func (s *Server) DidOpen(ctx context.Context, params *protocol.DidOpenTextDocumentParams) error {
 	s.documents.Store(params.TextDocument.URI, params.TextDocument.Text)
+	s.payeeTemplatesCache.Clear()
 	// the opened buffer may differ from the file on disk (unsaved text restored by the editor)
 	if path := uriToPath(params.TextDocument.URI); path != "" {
 		if s.workspace != nil {
@@ -199,6 +200,8 @@ func (s *Server) DidChange(ctx context.Context, params *protocol.DidChangeTextDo
 			}
 		}
 		s.documents.Store(params.TextDocument.URI, content)
+		// posting templates are built from every file of the document's tree
+		s.payeeTemplatesCache.Clear()
 		if path := uriToPath(params.TextDocument.URI); path != "" {
 			if s.workspace != nil {
 				s.workspace.UpdateFile(path, content)
@@ -218,7 +221,7 @@ func isFullChange(r protocol.Range) bool {
 func (s *Server) DidClose(ctx context.Context, params *protocol.DidCloseTextDocumentParams) error {
 	s.documents.Delete(params.TextDocument.URI)
 	tokenCache.delete(params.TextDocument.URI)
-	s.payeeTemplatesCache.Delete(params.TextDocument.URI)
+	s.payeeTemplatesCache.Clear()
 
 	// a closed document is what the disk holds: unsaved text must not stay in the workspace
 	if path := uriToPath(params.TextDocument.URI); path != "" && s.workspace != nil {
@@ -230,7 +233,7 @@ func (s *Server) DidClose(ctx context.Context, params *protocol.DidCloseTextDocu
 }
 
 func (s *Server) DidSave(ctx context.Context, params *protocol.DidSaveTextDocumentParams) error {
-	s.payeeTemplatesCache.Delete(params.TextDocument.URI)
+	s.payeeTemplatesCache.Clear()
 
 	if path := uriToPath(params.TextDocument.URI); path != "" {
 		if s.workspace != nil {
